@@ -2,7 +2,7 @@
 
 Topology = seeded parent-closed set of 2..10 addresses (depth <= 4); every node is a real RF24Network /
 RF24NetworkRoutingOnly object on its own chip and MCU running the canonical update loop in its own task.
-Messages are sent one at a time; the history oracle runs at quiescence.
+Messages are sent one at a time; a third of the nodes constructed with another address and re-addressed before start, a quarter with ret_sys_msg on, some with allow_multicast off; the history oracle runs at quiescence.
 
 Clauses (loss-free medium):
   delivered    the destination's application log holds the message once (bytes, type, origin) and write()/send() returned True
@@ -100,6 +100,17 @@ def make(i, base_seed, tier):
     for nd in nodes:
         if nd["addr"] not in ends and rng.random() < 0.4:
             nd["cls"] = "router"
+    xr = stream(seed, "ext")
+    for nd in nodes:
+        # per-node configuration history: constructed with another address (any level) and re-addressed before start;
+        # non-default options that must not matter for user messages
+        if xr.random() < 0.3:
+            lv = xr.randint(0, 4)
+            nd["first_addr"] = sum(xr.randint(1, 5) << (3 * d) for d in range(lv))
+        if xr.random() < 0.25:
+            nd["ret_sys_msg"] = True
+        if xr.random() < 0.15 and nd["cls"] == "net":
+            nd["no_multicast"] = True
     faults = []
     if lossy:
         ar = stream(seed, "air")
@@ -131,11 +142,19 @@ def payload(seed, n):
 def build(scn, w, net):
     for nd in scn["nodes"]:
         def setup(node, nd=nd):
+            if nd.get("first_addr") is not None:
+                node.node_address = nd["addr"]
+                w.sim.count("readdressed")
+            if nd.get("ret_sys_msg"):
+                node.ret_sys_msg = True
+            if nd.get("no_multicast") and hasattr(node, "allow_multicast"):
+                node.allow_multicast = False
+                node.node_address = node.node_address
             node.tx_timeout = scn.get("tx_timeout", 25)
             node.route_timeout = scn.get("route_timeout", 75)
             if not scn.get("frag", True):
                 node.fragmentation = False
-        nc = net.add(nd["addr"], nd["cls"], nd["addr"], knobs=nd["knobs"], plus=nd.get("plus", True),
+        nc = net.add(nd["addr"], nd["cls"], nd["addr"] if nd.get("first_addr") is None else nd["first_addr"], knobs=nd["knobs"], plus=nd.get("plus", True),
                      backend=nd.get("backend", "spidev"), setup=setup)
         nc.mcu.next_id = nd.get("fid", 0)
     net.start()
@@ -194,7 +213,15 @@ def _run(scn, w, net, res):
         if not lossy:
             if not quiet:
                 res.add("delivered", dict(sig_base, kind="no_quiescence"), "network did not become quiet within 3 s after write()")
-            if len(got) == 0:
+            t_call = c.t0
+            dropped = [(k, n) for k, nc in net.nodes.items() for (t, n) in nc.radio.rx_discards if t >= t_call]
+            if (len(got) == 0 or c.result is not True) and dropped:
+                # distinguishable cause: a node threw away frames its radio had received (no packet was lost on the air)
+                res.add("delivered", dict(sig_base, kind="received_frames_discarded", ret=bool(c.result)),
+                        "message %o -> %o (%d bytes, %d fragments, %d hops) %s; node(s) %r flushed unread received frames out of their RX FIFO"
+                        % (m["src"], m["dst"], m["len"], nfrag, hops, "was not delivered" if not got else "was delivered but write() returned %r" % (c.result,),
+                           [(oct(k) if isinstance(k, int) else k, n) for k, n in dropped]))
+            elif len(got) == 0:
                 res.add("delivered", dict(sig_base, kind="not_delivered", ret=bool(c.result)),
                         "message %o -> %o (%d bytes, %d fragments, %d hops, type %d) was not delivered; write() returned %r"
                         % (m["src"], m["dst"], m["len"], nfrag, hops, m["type"], c.result))
